@@ -1,9 +1,35 @@
 import Driver.Proto
+import ScrapliModel.Telnet
 namespace Driver
-open Scrapli
+open Scrapli Scrapli.Telnet
 
-/-- line-protocol handler for property C15 (arguments after the leading `c15` token) -/
+def showSt (s : St) : String := s!"{toHex s.ctrl} {toHex s.data} {showHexList s.replies}"
+
+/-- line-protocol handler for property C15 (arguments after the leading `c15` token)
+
+* `step <ctrl> <byte>` → `<ctrl' data' replies'>` of the repaired model, then of the as-is model
+  (one parser step from `ctrlBuf = ctrl`, empty `initialBuf`)
+* `open <bytes>` → `dom pending spec_data spec_replies  model(ctrl data replies)  asis(ctrl data replies)`
+  where `dom` = the stream is a complete RFC 854 token stream of data, negotiations, two-byte
+  commands 241–249 and escaped IAC (the property's quantifier), `spec_*` come from the tokenizer
+* `reads <initialBuf> <sock chunks> <n>` → the results of the first `n` `Telnet.Read` calls -/
 def handleC15 : List String → String
+  | ["step", ctrl, b] =>
+    match fromHex ctrl, fromHex b with
+    | some ctrl, some [c] =>
+      let s : St := { ctrl := ctrl }
+      s!"{showSt (step s c)} {showSt (stepAsIs s c)}"
+    | _, _ => "bad-op"
+  | ["open", h] =>
+    match fromHex h with
+    | some bs =>
+      let r := tokenize bs
+      s!"{b2s (inDomain bs)} {toHex r.2} {toHex (delivered r.1)} {showHexList (answers r.1)} {showSt (openWith bs)} {showSt (negotiateAsIs {} bs)}"
+    | none => "bad-op"
+  | ["reads", buf, sock, n] =>
+    match fromHex buf, hexList sock, n.toNat? with
+    | some buf, some sock, some n => showHexList (Conn.reads n ⟨buf, sock⟩)
+    | _, _, _ => "bad-op"
   | _ => "bad-op"
 
 end Driver
